@@ -19,7 +19,7 @@ STUBS = ['socket.create_connection -> in-process FakeSock wired to the real simu
 OPS = ["A[1-2]=7,8", "A[0-3]", "B[0-1]", "A[5-6]"]         # the last one is refused by the simulator (beyond the end)
 
 
-def exchange(depth, multiple, cut=None, ccut=None, api='operate'):
+def exchange(depth, multiple, cut=None, ccut=None, api='operate', drop=None, ops=None):
     """-> (results yielded before the stream ended, exception raised?, reply frame end offsets, bytes the peer produced)"""
     sim.RANDOM.n = 1000
     sim.attribute('A').value[:] = [1, 2, 3, 4, 5, 6]
@@ -28,13 +28,13 @@ def exchange(depth, multiple, cut=None, ccut=None, api='operate'):
     raised = False
     wire = None
     try:
-        c, wire, sock = cli.connect(cut=cut, ccut=ccut, tags=TAGS)
+        c, wire, sock = cli.connect(cut=cut, ccut=ccut, drop=drop, tags=TAGS)
         with c:
             if api == 'process':
                 failures, values = c.process(client.parse_operations(OPS), depth=depth, multiple=multiple, timeout=1)
                 got = [(None, v if v is None or v is True else list(v)) for v in values]
             else:
-                for i, d, rq, rp, st, v in c.operate(client.parse_operations(OPS), depth=depth, multiple=multiple, timeout=1):
+                for i, d, rq, rp, st, v in c.operate(client.parse_operations(ops or OPS), depth=depth, multiple=multiple, timeout=1):
                     got.append((st, v if v is None or v is True else list(v)))
     except Exception:
         raised = True
@@ -173,3 +173,31 @@ define(globals(), 'C13', 'proxy_discards_and_reconnects', ['cut', 'depth'], "ret
                                                         'cpppo.server.enip.get_attribute.proxy.close_gateway', 'cpppo.server.enip.get_attribute.proxy.__exit__'],
        stubs=STUBS, bounds='proxy.read of two attribute ranges over a connection cut at every reply-stream offset: either correct values or an exception with '
                            'the gateway discarded; the next read (fresh connection) returns the correct data', outside='poll.run (threads, sleeps)')
+
+
+# ---- a reply lost ENTIRELY while later replies still arrive (the dangerous case for mis-pairing) ---------------------------------------------
+OPS6 = ["A[0]", "A[1]", "A[2]", "A[3]", "A[4]", "A[5]"]
+DROP_CFG = [(2, 0), (3, 60), (2, 100), (0, 60), (1, 0)]       # (depth, multiple): singles, bundles of 2, bundles of 3, synchronous bundles
+DROP_BASE = {}
+for _cfg in DROP_CFG:
+    g, r, w = exchange(_cfg[0], _cfg[1], ops=OPS6)
+    assert not r and len(g) == 6, (g, r)
+    DROP_BASE[_cfg] = (g, len(w.frames))
+
+
+def do_drop(cfg, k):
+    base, nframes = DROP_BASE[cfg]
+    k = 1 + k % (nframes - 1)                                   # one of the operation reply frames (frame 0 is the Register reply)
+    got, raised, wire = exchange(cfg[0], cfg[1], drop=k, ops=OPS6)
+    n = len(got)
+    # only results that are correct for their own request; the stream must end with an error (a reply is missing), never silently short
+    return got == base[:n] and n < 6 and raised
+
+
+for cfg in DROP_CFG:
+    define(globals(), 'C13', 'reply_lost_depth%d_multiple%d' % cfg, ['k'], "return do_drop(%r, k)" % (cfg,), ['0 <= k'],
+           tier='quick' if cfg in ((2, 0), (3, 60)) else 'thorough', timeout=6000, path_timeout=600, drives=DRIVES, stubs=STUBS,
+           symbolic=['k: which reply frame (of %d) is lost entirely; all later replies are delivered intact' % (DROP_BASE[cfg][1] - 1)],
+           bounds='6 single-element reads with depth=%d, multiple=%d (so several requests / Multiple Service Packets are in flight): one whole reply frame is '
+                  'lost and the following ones arrive: every yielded value belongs to its own request (no value of a later request is paired with an earlier '
+                  'one) and the result stream ends with an error' % cfg, outside='loss of several replies')
